@@ -198,7 +198,7 @@ def build_api(graph, order, by_object):
     return p, "\n".join(text)
 
 
-def observe(graph, order, ops, by_object=None, flaky=(), replace=None):
+def observe(graph, order, ops, by_object=None, flaky=(), replace=None, copied=False):
     n = len(graph)
     src = render(graph, order)
     del probe.LOG[:]
@@ -225,9 +225,15 @@ def observe(graph, order, ops, by_object=None, flaky=(), replace=None):
         del p.commands["r%d" % e]
         p.add_command(type(old), "r%d" % e, args)
         src += "\n# then, in code: del p.commands['r%d']; p.add_command(Probe, 'r%d', {'Id': %d, <the same references by name>})" % (e, e, new_id)
+    p_orig = None
+    if copied:
+        # a deep copy of the program (a scenario variant) is run while the original stays alive and untouched
+        import copy
+        p_orig, p = p, copy.deepcopy(p)
+        src += "\n# then, in code: variant = copy.deepcopy(p); variant.run()   (p itself is not run)"
     lines = {c.lineno: int(name[1:]) for name, c in p.commands.items()}
     old_limit = sys.getrecursionlimit()
-    sys.setrecursionlimit(400)   # keeps the pinned tree's runaway recursion on cycles cheap to observe
+    sys.setrecursionlimit(250 if n > 200 else 400)   # keeps the pinned tree's runaway recursion on cycles cheap to observe
     try:
         try:
             for attempt in range(len(flaky)):
@@ -263,6 +269,7 @@ def observe(graph, order, ops, by_object=None, flaky=(), replace=None):
         except BaseException as ex:
             obs["detail"] = "escaped %s" % type(ex).__name__
         log1 = list(probe.LOG)
+        obs["original_touched"] = p_orig is not None and any(c.is_finished for c in p_orig.commands.values())
         obs["executed_at_run"] = len([e for e in log1 if e[0] == "enter"])
         obs["finished_flags"] = sorted(int(k[1:]) for k, c in p.commands.items() if c.is_finished)
         if obs["tag"] == 0:
@@ -356,6 +363,8 @@ def main():
                 jobs.append((g, topo_order(rnd, g), ops, [rnd.random() < 0.6 for _ in range(7)]))
             if rnd.random() < 0.15 and nn >= 2:   # one or two commands fail the first time they execute; the model is run again
                 jobs.append((g, order, ops, None, {"flaky": rnd.sample(range(nn), rnd.randint(1, min(2, nn)))}))
+            if rnd.random() < 0.1:                # a deep copy of the program is run instead of the program
+                jobs.append((g, order, ops, None, {"copied": True}))
             if rnd.random() < 0.15 and nn >= 2:   # a command replaced through the API before the run
                 jobs.append((g, order, ops, None, {"replace": (rnd.randrange(nn), 1000 + rnd.randrange(50))}))
             if rnd.random() < 0.3:   # the same graph in another file order (C02: order independence)
@@ -375,6 +384,13 @@ def main():
                     order = list(range(nn))
                     rnd.shuffle(order)
                     jobs.append((g, order, []))
+        # a loop at the far end of a long chain of references, listed from the command that needs everything down to the loop
+        # (and the other way round): the loop check must not depend on how deep the model is
+        L = 260
+        deep = {i: [("D", i + 1)] for i in range(L - 1)}
+        deep[L - 1] = [("D", L - 2)]
+        jobs.append((deep, list(range(L)), []))
+        jobs.append((deep, list(reversed(range(L))), []))
         while len(jobs) < n:
             nn = rnd.choice([4, 5, 5, 6, 8])
             pairs = [(a, b) for a in range(nn) for b in range(nn)]
@@ -388,7 +404,7 @@ def main():
         g, order, ops = job[:3]
         nn = len(g)
         extra = job[4] if len(job) > 4 else {}
-        src, obs = observe(g, order, ops, job[3] if len(job) > 3 else None, flaky=extra.get("flaky", ()), replace=extra.get("replace"))
+        src, obs = observe(g, order, ops, job[3] if len(job) > 3 else None, flaky=extra.get("flaky", ()), replace=extra.get("replace"), copied=extra.get("copied", False))
         dist["built_in_code"] = dist.get("built_in_code", 0) + int(len(job) > 3 and job[3] is not None)
         dist["flaky_histories"] = dist.get("flaky_histories", 0) + int("flaky" in extra)
         dist["edited_models"] = dist.get("edited_models", 0) + int("replace" in extra)
@@ -431,6 +447,8 @@ def main():
             if obs["tag"] != 0:
                 fails.append({"sig": "C01:run-failed", "what": "acyclic program did not run: %s" % obs["detail"], "replay": replay})
                 continue
+            if obs.get("original_touched"):
+                fails.append({"sig": "C01:ran-the-original", "what": "running a deep copy of the program executed commands of the original program", "replay": replay})
             bad = [x for x in (obs["exit"] if "flaky" in extra else obs["enter"] + obs["exit"]) if x[1] != 1]
             if bad:
                 fails.append({"sig": "C01:not-exactly-once", "what": "commands not executed exactly once (command, count): %r" % bad[:5], "replay": replay})
